@@ -455,6 +455,16 @@ def cellwise_merge(ctx, m, field):
         st = tb._for_loop_stream(h)
         st = erase_param_names(st) if st is not None else None
         ok = st is not None and st[0] == "zip" and {repr(st[1]), repr(st[2])} == both
+        mine_, theirs_ = ("elem", ("field", selfp, field)), ("elem", ("field", otherp, field))
+        if ok and v == theirs_:
+            # `if theirs > *mine { *mine = theirs }`: the store of the other cell under the test that it is the larger one is the
+            # in-place max (the store is skipped exactly when it would change nothing); the walk must visit every cell
+            from ..guards import atomic_facts, fv as _fv
+            from ..terms import mk as _mk
+            fs_ = {repr(erase_param_names(c_)): t_ for c_, t_ in atomic_facts(m, ctx.prog, w["bb"], tb)}
+            if _fv(fs_, _mk("Lt", mine_, theirs_)) is True and loop_exits_only_on_exhaustion(m, h):
+                vmax = ("op", "max", tuple(sorted((mine_, theirs_), key=repr)))
+                return {"form": "in-place", "elem": vmax, "why": "guarded in-place max over %s" % fmt(st)}
         ok = ok and v[0] == "op" and len(v[2]) == 2 and {repr(v[2][0]), repr(v[2][1])} == cells
         ok = ok and all(m.dominates(w["bb"], b) for b, hh in m.back_edges() if hh == h)
         return {"form": "in-place" if ok else None, "elem": v, "why": "%s over %s" % (fmt(v), fmt(st) if st else "an unrecognised loop")}
